@@ -80,6 +80,14 @@ NEEDS = {
  "C36b-write-oserror-suppressed": "the cache write failing with an OSError (disk full / file size limit) inside the last field of the last row",
  "C37b-root-mutation-keeps-input-node-age": "rescale_tree_sequence on an input with a mutation above a root",
  "C38b-ignore-flag-switches-off-mid-pass": "ignore_oldest_root=True, a child of the last-id node visited after an internal node not attached to it (tied times: order by id)",
+ "C11b-mixture-cache-key-sorted-columns": "two nodes whose (samples below, span) records are permutations of each other column-wise, visited in a different order after a re-timing or a tie-breaking renumbering (C15 sees the wrong mixture moments directly)",
+ "C13c-handwritten-poisson-zero-log-zero": "eps exactly 0 and a child whose edge to its youngest parent has no mutations (either probability space)",
+ "C25c-epoch-merge-absolute-epsilon": "distinct node ages closer than 2.2e-16 in absolute terms (the problem posed in time units of 1e-15)",
+ "C09c-prior-not-converted-back-to-linear": "one prior object used first in logarithmic space and then again with probability_space='linear'",
+ "C02c-default-schema-rows-rebuilt-from-empty": "a table that already carries tsdate's default schema AND rows with fields other than mn/vr (dated before, annotated afterwards)",
+ "C23c-fixed-projection-arguments-swapped": "singletons_phased=False and an unphased individual whose two nodes hang below fixed-age nodes of different ages",
+ "C05c-rescale-aliases-mutation-phase": "singletons_phased=False, rescaling on, a singleton placed on the second edge of its block",
+ "C22c-singleton-on-block-start-unblocked": "singletons_phased=False and a singleton exactly on the left end of its carrier's block (on a breakpoint)",
 }
 for d in sorted(glob.glob(os.path.join(ROOT, "seeded", "*"))):
     name = os.path.basename(d)
